@@ -50,7 +50,7 @@ func (w *watchdog) end(id int64) {
 }
 
 func runC14(c *Ctx) {
-	c.res.Rule = "every exported function on: Language values [-2^17,2^17] + int boundaries (String) and a 64-value subset x all other functions; all byte strings of length <=3 over a 12-byte alphabet incl. ill-formed UTF-8 (CheckMnemonic/IsMnemonicValid x 12 language values; MnemonicToSeed for (<=2,<=1) and (<=1,<=2) byte pairs); every 2-byte sequence as one token of an otherwise valid sentence; unknown tokens of every byte length 1..100 over seven rune shapes (cut at arbitrary byte boundaries); 0..60 list words joined by every two-block pattern of 6 separators; sizes 0,1,2^10,2^20,2^24 of 'a', U+0301, 0xFF and (<=2^20) U+0020; nil and every entropy length 0..4096; every word count of C09 with a working and a failing source. Oracle: the call returns; a recovered panic or a call exceeding a 180 s deadline is a violation. distinct_nontrivial = distinct (function, argument) cases"
+	c.res.Rule = "every exported function on: Language values [-2^17,2^17] + int boundaries (String) and a 64-value subset x all other functions; all byte strings of length <=3 over a 12-byte alphabet incl. ill-formed UTF-8 (CheckMnemonic/IsMnemonicValid x 12 language values; MnemonicToSeed for (<=2,<=1) and (<=1,<=2) byte pairs); every 2-byte sequence as one token of an otherwise valid sentence; unknown tokens of every byte length 1..100 over seven rune shapes (cut at arbitrary byte boundaries); 0..60 list words joined by every two-block pattern of 6 separators; sizes 0,1,2^10,2^20,2^24 of 'a', U+0301, 0xFF and (<=2^20) U+0020; nil and every entropy length 0..4096; every word count of C09 with a working and a failing source; every case of the sentence mutation scopes of C03/C15 (all last words, substitutions, transpositions, foreign words, every list word of every language in every damaged spelling incl. all proper prefixes and suffixes, separator damage). Oracle: the call returns; a recovered panic or a call exceeding a 180 s deadline is a violation. distinct_nontrivial = distinct (function, argument) cases"
 	c.Assume("hang = a single call not returning within 180 s (calls cost microseconds to ~1 s)")
 	wd := &watchdog{calls: map[int64]*inflight{}}
 	stop := make(chan struct{})
@@ -397,5 +397,21 @@ func c14body(c *Ctx, guard func(key, what string, cs map[string]interface{}, f f
 		}
 	}
 	c.AddScope("NewMnemonic counts [-4096,4096] + int boundaries x working/failing source", int64(2*len(cnts)), true, "")
+	// 9. the sentence scopes of C03 / C15 (all last words, substitutions, transpositions, foreign and
+	// damaged tokens, every list word in every damaged spelling incl. all its proper prefixes and
+	// suffixes, separator damage, extreme lengths): those checks judge verdicts and leave a panic to
+	// this one
+	var nsc int64
+	c.forAllSentenceCases(func(sc SCase) {
+		var pn string
+		pn = call(func() { _ = bip39.CheckMnemonic(sc.S, Langs[sc.L]); _ = bip39.IsMnemonicValid(sc.S, Langs[sc.L]) })
+		atomic.AddInt64(&nsc, 1)
+		if pn != "" {
+			c.Violate(fmt.Sprintf("panic:check:%s:%d", hs(sc.S), sc.L), fmt.Sprintf("CheckMnemonic(%q, %s) panicked: %s (%s)", sc.S, ref.LangNames[sc.L], pn, sc.Class),
+				map[string]interface{}{"kind": "check-returns", "sentence": hs(sc.S), "lang": sc.L, "class": sc.Class})
+		}
+	})
+	c.Eval(nsc)
+	c.AddScope("sentence mutation scopes of C03/C15 (no panic)", nsc, true, "")
 	_ = ref.NLang
 }
